@@ -2,5 +2,5 @@ SPECIFICATION Spec
 CONSTANTS
   NInst = 2
   Workloads <- TheWorkloads
-INVARIANTS Independent SharedUntouched MapOrder
+INVARIANTS Independent SharedUntouched MapOrder OptionsStable
 CHECK_DEADLOCK FALSE
